@@ -11,6 +11,7 @@
 -/
 import Resonate.Proofs.NoPanic
 import Resonate.Proofs.Kernel
+import Resonate.Proofs.FreshIds
 import Resonate.Model.Env
 namespace Resonate.C13
 open Coro SqlSpec
@@ -193,6 +194,97 @@ theorem reachable_keys (d : Dialect) (env : Env) (db : Db) (hk : KeysX db) (clk 
   obtain ⟨_, clk', h⟩ := run_no_assert d cs _ clk (bgOk d env) (kinv_boot d env db clk hk) (runOkV_runOk d cs clk _ hok)
   exact h.keys
 
+/-! ### the naming hypothesis, discharged
+
+  `RunOkV` asks that thread ids started by a tick are not in use.  Proofs/FreshIds.lean derives that from what a
+  client and an operator actually control: request ids are unique and not of the form `<BackgroundName>:<n>`, and the
+  signal timeout is positive.  `RunOkF` is `RunOkV` with that in place of the per-tick condition. -/
+
+def StepOkF (used : List String) (clk : Time) (s : Sys) : Choice → Prop
+  | .submit tid r => ValidReq r ∧ tid ∉ used ∧ NotBg tid
+  | .tick t => clk ≤ t
+  | .complete id c => ∀ e ∈ s.pending, e.1 = id → KindOk e.2 c
+  | _ => True
+
+def RunOkF : List String → Time → Sys → List Choice → Prop
+  | _, _, _, [] => True
+  | used, clk, s, c :: cs => StepOkF used clk s c ∧ RunOkF (usedAfter used c) (clkAfter clk c) (s.step c).1 cs
+
+theorem runOkF_runOkV : ∀ (cs : List Choice) (used : List String) (clk : Time) (s : Sys), FInv used s → 0 < s.env.cfg.signalTimeout →
+    RunOkF used clk s cs → RunOkV clk s cs := by
+  intro cs
+  induction cs with
+  | nil => intro _ _ _ _ _ _; trivial
+  | cons c cs ih =>
+    intro used clk s hf hpos h
+    have h1 := h.1
+    have hstep : FInv (usedAfter used c) (s.step c).1 := by
+      apply finv_step used s c hf (Int.le_of_lt hpos)
+      intro tid r hc
+      subst hc
+      exact h1.2
+    refine ⟨?_, ih _ _ _ hstep (by rw [step_env]; exact hpos) h.2⟩
+    cases c with
+    | submit tid r => exact h1.1
+    | tick t => exact finv_tickOk used s clk t hf hpos h1
+    | complete id cp => exact h1
+    | execStore items => trivial
+    | shutdown => trivial
+    | crash => trivial
+
+/-- **the server never asserts, never stops, and its store never asserts** — for every run in which request ids are
+    unique and not background-shaped, submitted requests passed validation, the clock does not step back, router / sender
+    completions are of their subsystem's kind, and the signal timeout is positive. -/
+theorem server_is_safe (d : Dialect) (env : Env) (db : Db) (hk : KeysX db) (hpos : 0 < env.cfg.signalTimeout) (clk : Time) (cs : List Choice)
+    (hok : RunOkF [] clk (Sys.boot env d (defs d) db) cs) :
+    (∀ e ∈ (Sys.boot env d (defs d) db).runEvents cs, ∀ tid site, e ≠ .panic tid site) ∧
+    (∀ e ∈ (Sys.boot env d (defs d) db).runErrs cs, ∀ m, e ≠ .assertion m) ∧
+    ((Sys.boot env d (defs d) db).run cs).halted = none ∧
+    KeysX ((Sys.boot env d (defs d) db).run cs).db := by
+  have hv := runOkF_runOkV cs [] clk _ (finv_boot env d (defs d) db) hpos hok
+  exact ⟨server_never_asserts d env db hk clk cs hv, store_never_asserts d env db hk clk cs hv,
+    server_never_halts d env db hk clk cs hv, reachable_keys d env db hk clk cs hv⟩
+
+/-- executable form of `RunOkF` (request ids are accepted when new and starting with a character other than `T`, `S`, `E`) -/
+def freshTidB (used : List String) (tid : String) : Bool :=
+  !used.contains tid && (match tid.toList with | c :: _ => c != 'T' && c != 'S' && c != 'E' | [] => false)
+
+theorem freshTidB_sound (used : List String) (tid : String) (h : freshTidB used tid = true) : tid ∉ used ∧ NotBg tid := by
+  simp only [freshTidB, Bool.and_eq_true, Bool.not_eq_true'] at h
+  refine ⟨by simpa using h.1, ?_⟩
+  cases hl : tid.toList with
+  | nil => simp [hl] at h
+  | cons c cs =>
+    simp only [hl, Bool.and_eq_true, bne_iff_ne, ne_eq] at h
+    exact notBg_of_first tid c cs hl h.2.1.1 h.2.1.2 h.2.2
+
+def runOkFB : List String → Time → Sys → List Choice → Bool
+  | _, _, _, [] => true
+  | used, clk, s, c :: cs =>
+    (match c with
+      | .submit tid r => decide (ValidReq r) && freshTidB used tid
+      | .tick t => decide (clk ≤ t)
+      | .complete id cp => decide (∀ e ∈ s.pending, e.1 = id → KindOk e.2 cp)
+      | _ => true) && runOkFB (usedAfter used c) (clkAfter clk c) (s.step c).1 cs
+
+theorem runOkFB_sound : ∀ (cs : List Choice) (used : List String) (clk : Time) (s : Sys), runOkFB used clk s cs = true → RunOkF used clk s cs := by
+  intro cs
+  induction cs with
+  | nil => intro _ _ _ _; trivial
+  | cons c cs ih =>
+    intro used clk s h
+    simp only [runOkFB, Bool.and_eq_true] at h
+    refine ⟨?_, ih _ _ _ h.2⟩
+    cases c with
+    | submit tid r =>
+      simp only [Bool.and_eq_true, decide_eq_true_eq] at h
+      exact ⟨h.1.1, freshTidB_sound used tid h.1.2⟩
+    | tick t => simpa [StepOkF] using h.1
+    | complete id cp => simpa [StepOkF] using h.1
+    | execStore items => trivial
+    | shutdown => trivial
+    | crash => trivial
+
 /-- the hypotheses are met by ordinary runs (a test, not the theorem): a create with its router and store
     completions, a crash, a retry whose read fails after processing, another retry — `RunOkV` holds and responses are produced -/
 def demoEnv : Env := defaultEnv { url := "http://r", coroutineMaxSize := 10, taskEnqueueDelay := 1000 }
@@ -203,6 +295,7 @@ def demoRun : List Choice :=
    .submit "r2" demoCreate, .tick 14, .execStore [(⟨"r2", 0⟩, .after)], .tick 15,
    .submit "r3" demoCreate, .tick 16, .execStore [(⟨"r3", 0⟩, .ok)], .tick 17]
 #guard runOkB 0 (Sys.boot demoEnv .sqlite (defs .sqlite) {}) demoRun
+#guard runOkFB [] 0 (Sys.boot demoEnv .sqlite (defs .sqlite) {}) demoRun
 #guard ((Sys.boot demoEnv .sqlite (defs .sqlite) {}).runEvents demoRun).any (fun e => match e with | .respond _ _ => true | _ => false)
 
 /-- an invalid request is exactly one the theorem excludes — e.g. an empty search pattern reaches the kernel's assertion
